@@ -68,6 +68,19 @@ FAILERS.update({
     "vol_if": "\tcpu z80\n\trept 70\n\tif nix\n\tnop\n\tendif\n\telse\n\tendif\n\tendm\n",
 })
 VOL_FAILERS = sorted(k for k in FAILERS if k.startswith("vol_"))
+# predecessors whose last pass ends with range errors (jump distance, page) - counters of 'questionable' errors
+# are only consumed when a later symbol change forces another pass
+FAILERS.update({
+    "fin_jrz80": "\tcpu z80\n\torg 0\n\tjr far\n\tds 300\nfar:\tnop\n",
+    "fin_bne6502": "\tcpu 6502\n\torg 0\n\tbne far\n\tbeq far\n\tdfs 300\nfar:\tnop\n",
+    "fin_sjmp51": "\tcpu 8051\n\torg 0\nback:\tnop\n\tds 300\n\tsjmp back\n\tajmp 0f000h\n",
+    "fin_bras68k": "\tcpu 68000\n\torg 0\n\tbra.s far\n\tds.b 300\nfar:\tnop\n",
+})
+FIN_FAILERS = sorted(k for k in FAILERS if k.startswith("fin_"))
+# option sets every run of one case (joint and single) is given in addition to -q -i
+OPTSETS = [[], ["-Y"], ["-x"], ["-x", "-x"], ["-U"], ["-L"], ["-C", "-L"], ["-g"], ["-u", "-L"], ["-s", "-L"],
+           ["-gnuerrors"], ["-Werror"], ["-Y", "-x", "-L"], ["-h"], ["-n"], ["-r"], ["-A"], ["-t", "0"], ["-P"],
+           ["-M"], ["-I", "-L"], ["-compmode"], ["-relaxed"], ["-maxerrors", "3"]]
 
 
 def _exp_probe(total):
@@ -98,6 +111,10 @@ PROBES = {
     'lang_noorg68k': '; comment first\n\tcpu 68000\n\tdc.w 1,2\nl3:\tbra.s l3\n\tdc.l l3\n',
     # line buffers live for the whole run and only grow: a long line in one source, an expansion at the old capacity
     # in the next
+    # a label that moves in the second pass while nothing else has asked for another pass yet
+    'lang_moves6502': '\tcpu 6502\n\torg $200\n\tlda fw\nl2:\tnop\n\tjmp l2\n\torg $10\nfw:\tnop\n',
+    'lang_moves68k': '\tcpu 68000\n\torg $1000\n\tjmp fw\nl2:\tnop\n\tbra.s l2\n\torg $20\nfw:\tnop\n',
+    'lang_moves6809': '\tcpu 6809\n\torg $1000\n\tlda fw\nl2:\tnop\n\tbra l2\n\torg $20\nfw:\tnop\n',
     'lang_longline': '\tcpu 6502\n; ' + 'x' * 1100 + '\n\tnop\n\tbyt 1,2,3\n',
     'lang_longline2': '\tcpu z80\n\tdb 1 ; ' + 'y' * 2100 + '\n\tnop\n',
     'lang_exp1022': _exp_probe(1022), 'lang_exp1023': _exp_probe(1023), 'lang_exp1024': _exp_probe(1024),
@@ -202,7 +219,7 @@ def strategy_(d, tier):
         names = names[:k - 1] + ["?" + d.choice(sorted(PROBES))]
         if d.bool(0.5):
             names[0] = "?" + d.choice(sorted(PROBES))
-        return dict(files=names)
+        return dict(files=names, opts=d.choice(OPTSETS) if d.bool(0.3) else [])
     if d.bool(0.45):
         # same code generator before and after: the predecessor ends with state statements (ASSUME of the family's
         # registers, mode switches), the successor is a golden program of that family, often with some numeric
@@ -214,7 +231,10 @@ def strategy_(d, tier):
         a = dict(t=pred, tail=statepool.draw(d, pred))
         b = dict(t=succ, lit=variants.lit_strategy(d)) if d.bool(0.7) else succ
         names = [a, b]
-    return dict(files=names)
+    if d.bool(0.25):
+        # a predecessor whose last pass ends with range errors, in front of whatever was drawn
+        names = ["!" + d.choice(FIN_FAILERS)] + names[-2:]
+    return dict(files=names, opts=d.choice(OPTSETS) if d.bool(0.3) else [])
 
 
 def strategy(tier):
@@ -238,10 +258,10 @@ def source_of(n, idx):
     return n + ".asm", t["src"], t["extra"]
 
 
-def run_set(names, idxs):
+def run_set(names, idxs, opts=()):
     """assemble the given (index, name) entries in one run; returns (result, {idx: p bytes|None})"""
     with run.Work("c18") as d:
-        argv = ["asl", "-q", "-i", asl.INCLUDE_DIR]
+        argv = ["asl", "-q", "-i", asl.INCLUDE_DIR] + list(opts)
         outs = {}
         for i in idxs:
             fn, src, extra = source_of(names[i], i)
@@ -273,12 +293,16 @@ def execute(case):
         return engine.discarded("include-name-clash", classes)
     key = "|".join(label(n) + (engine.digest(str(n))[:6] if isinstance(n, dict) else "") for n in names)
     idxs = list(range(len(names)))
-    joint, jouts, jargv = run_set(names, idxs)
+    opts = case.get("opts") or []
+    if opts:
+        classes.append("opts:" + " ".join(opts))
+        key = " ".join(opts) + "|" + key
+    joint, jouts, jargv = run_set(names, idxs, opts)
     if joint.timed_out:
         return engine.inconclusive("timeout", classes)
     singles = []
     for i in idxs:
-        r, o, _ = run_set(names, [i])
+        r, o, _ = run_set(names, [i], opts)
         if r.timed_out:
             return engine.inconclusive("timeout", classes)
         singles.append((r, o[i]))
@@ -346,6 +370,18 @@ def fixed_cases(tier):
     for mk in MODE_FAILERS + VOL_FAILERS:
         for b in pk:
             out.append(dict(files=["!" + mk, "?" + b]))
+    # final range errors in front of every probe, plain and with -Y (errors of a pass that is repeated are dropped)
+    for fk_ in FIN_FAILERS:
+        for b in pk:
+            for o in ([], ["-Y"]):
+                out.append(dict(files=["!" + fk_, "?" + b], opts=o))
+    # every option set with a few pairs of each kind
+    for oi, o in enumerate(OPTSETS[1:]):
+        for j in range(6):
+            t1, t2 = pt[(oi * 13 + j * 29) % n], pt[(oi * 7 + j * 31 + 5) % n]
+            out.append(dict(files=[t1, t2], opts=o))
+            out.append(dict(files=["!" + fk[(oi + j) % len(fk)], t2], opts=o))
+            out.append(dict(files=["?" + pk[(oi * 5 + j * 11) % len(pk)], "?" + pk[(oi * 3 + j * 17 + 1) % len(pk)]], opts=o))
     for vk in VOL_FAILERS:
         for i, t in enumerate(pt):
             if tier != "quick" or i % 4 == engine.seed_from_env() % 4:
